@@ -85,6 +85,14 @@ def swarm(seed, tier, profile="general"):
         for c in APPROX_ROOTS:
             if r.coin(0.2):
                 roots.append(c)
+    if profile == "general" and r.coin(0.15):
+        # swarm focus: approximate conditionals, their moment-matched transformations, in-place updates of the
+        # densities they were applied to, and re-issued transformations
+        cfg["focus"] = "approx"
+        roots = [r.choice(APPROX_ROOTS), r.choice(APPROX_ROOTS), "GaussianPDF", r.choice(PDF_ROOTS)]
+        cfg["weights"] = {"root": 1.0, "affine": 6.0, "cond_x": 2.0, "update": 3.0, "repeat": 4.0, "replace": 1.5,
+                          "slice": 0.5, "get_density": 0.5, "marginal": 0.5, "obs": 3.0, "copy": 0.3}
+        cfg["Rmax"] = min(cfg["Rmax"], 3)
     if profile == "product":
         roots = [c for c in FACTOR_ROOTS + MEASURE_ROOTS + PDF_ROOTS if r.coin(0.75)]
         if not any(c in roots for c in MEASURE_ROOTS + PDF_ROOTS):
@@ -224,9 +232,20 @@ class Gen:
                         out.add(s.id)
         return out
 
+    def used_before(self):
+        """ids of objects that already served as operands of constructive operations: mutating exactly those
+        in place is what exposes state memoised on (or about) them"""
+        out = set()
+        for rec in self.records:
+            if rec["op"] not in ("root", "obs") and rec["op"] not in model.MUTATORS:
+                out.update(model.operands(rec))
+        return out
+
     def g_normalize(self):
         al = self.aliased()
-        s = self.pick(("measure", "pdf"), lambda s: s.id not in al)
+        ub = self.used_before()
+        s = (self.pick(("measure", "pdf"), lambda s: s.id not in al and s.id in ub) if self.r.coin(0.5) else None) \
+            or self.pick(("measure", "pdf"), lambda s: s.id not in al)
         return None if s is None else {"op": "normalize", "a": s.id}
 
     def g_marginal(self):
@@ -322,7 +341,9 @@ class Gen:
     def g_update(self):
         r = self.r
         al = self.aliased()
-        a = self.pick(("pdf",), lambda s: s.id not in al)
+        ub = self.used_before()
+        a = (self.pick(("pdf",), lambda s: s.id not in al and s.id in ub) if r.coin(0.6) else None) \
+            or self.pick(("pdf",), lambda s: s.id not in al)
         if a is None:
             return None
         k = r.integers(1, a.R)
@@ -338,7 +359,9 @@ class Gen:
         return {"op": "update", "a": a.id, "d": did, "idx": idx}
 
     def g_update_sigma(self):
-        c = self.pick(("cond",), lambda s: s.cls not in model.HETERO)
+        ub = self.used_before()
+        c = (self.pick(("cond",), lambda s: s.cls not in model.HETERO and s.id in ub) if self.r.coin(0.6) else None) \
+            or self.pick(("cond",), lambda s: s.cls not in model.HETERO)
         if c is None:
             return None
         diag = "Diag" in c.cls
